@@ -112,6 +112,9 @@ def gen_rules(rng):
         for _ in range(nrules):
             rule_no += 1
             name = rng.choice(["r", "Alpha", "beta_rule", "R", "x"]) + str(rule_no)
+            other = [d["name"] for d in decls if d["ns"] != nsname and d["name"] not in names_here]
+            if other and rng.chance(1, 3):
+                name = rng.choice(other)      # the same identifier in another namespace
             private = rng.chance(1, 7)
             glob = rng.chance(1, 9)
             tags = []
@@ -296,7 +299,8 @@ def gen_flags(rng, decls):
     names = [d["name"] for d in decls if not d["private"]] or ["nothing"]
     used_tags = sorted(set(t for d in decls for t in d["tags"])) or ["t1"]
     filt = rng.below(12)
-    f["i"] = rng.choice([rng.choice(names)] * 5 + ["nosuchrule"]) if filt in (0, 2) else None
+    nss = sorted(set(d["ns"] for d in decls))
+    f["i"] = rng.choice([rng.choice(names)] * 5 + ["nosuchrule", rng.choice(nss)]) if filt in (0, 2) else None
     f["t"] = rng.choice([rng.choice(used_tags)] * 6 + [rng.choice(TAGS), "t"]) if filt in (1, 2, 3) else None
     f["mml"] = rng.choice([None, None, None, 0, 1, 2, 5, 511, 512, 513, 600, 100000])
     f["smax"] = rng.choice([None, None, None, 1, 2, 3, 1000])
@@ -316,9 +320,9 @@ def gen_flags(rng, decls):
 
 def gen_invocation(rng, decls, root, tree, ext):
     inv = {"mode": rng.choice(["scan", "scan", "yr", "yr", "load", "yrC"]), "flags": gen_flags(rng, decls),
-           "threads": rng.choice([None, 1, 1, 2, 2, 3, 4, 5, 8, 13, 16]),
+           "threads": rng.choice([None, 1, 1, 2, 2, 3, 4, 5, 8, 13, 16] * 3 + [0]),
            "no_mmap": rng.chance(1, 3), "recursive": rng.chance(3, 5), "no_follow": rng.chance(1, 5),
-           "skip_larger": rng.choice([None, None, None, None, 0, 1, 10, 50, 600, 70000, 10 ** 9])}
+           "skip_larger": rng.choice([None] * 12 + [0, 1, 10, 50, 600, 70000, 10 ** 9])}
     k = rng.below(10)
     all_files = files_of(tree, root)
     if k < 6:
@@ -502,11 +506,21 @@ class C18(Prop):
                    "-D, --scan-stats, process targets, console module output, compile diagnostics: not modelled"]
 
     # ---------------------------------------------------------------- build the executable under test
-    def translators(self, ctx):
-        probs = []
+    def repo_fingerprint(self):
+        rc, head = core.sh(["git", "-C", core.REPO, "rev-parse", "HEAD"])
+        rc2, diff = core.sh(["git", "-C", core.REPO, "diff", "HEAD", "--", "boreal", "boreal-cli", "boreal-parser"])
+        return head.strip() + ":" + hashlib.sha256(diff.encode()).hexdigest()[:16]
+
+    def build_cli(self):
         with core.Lock("cargo"):
+            self.cli_fp = self.repo_fingerprint()
             rc, out = core.sh(["cargo", "build", "--offline", "--quiet", "-p", "boreal-cli"], cwd=core.REPO, timeout=1500,
                               env={"CARGO_NET_OFFLINE": "true"})
+        return rc, out
+
+    def translators(self, ctx):
+        probs = []
+        rc, out = self.build_cli()
         if rc != 0 or not os.path.exists(CLI):
             probs.append("boreal-cli does not build: " + out[-1200:])
         # defaults of ScanParams the model copies (Model/Cli.v default_params)
@@ -690,6 +704,12 @@ class C18(Prop):
         return res
 
     def execute(self, ctx, cases):
+        # the executable and the harness must come from the same source tree: another agent may have
+        # committed to /repo between the two builds
+        if getattr(self, "cli_fp", None) != self.repo_fingerprint():
+            self.build_cli()
+            core.harness_build(self.HARNESS_BINS)
+            ctx.notes.append("/repo changed between the CLI build and the harness build: both rebuilt")
         if not hasattr(ctx, "c18_round"):
             ctx.c18_round = 0
         ctx.c18_round += 1
